@@ -239,6 +239,14 @@ func (c *Conversation) processDHKey(msg []byte) (isSame bool, err error) {
 // processRevealSig = alice = y
 // Bob ---- Reveal Signature ----> Alice
 func (c *Conversation) processRevealSig(msg []byte) (err error) {
+	// what is reported about the peer and the session only changes if the message verifies
+	previousKey, previousSSID, previousPublicValue := c.theirKey, c.ssid, c.ake.theirPublicValue
+	defer func() {
+		if err != nil {
+			c.theirKey, c.ssid, c.ake.theirPublicValue = previousKey, previousSSID, previousPublicValue
+		}
+	}()
+
 	revealSigMsg := revealSig{}
 	err = revealSigMsg.deserialize(msg, c.version)
 	if err != nil {
@@ -273,6 +281,13 @@ func (c *Conversation) processRevealSig(msg []byte) (err error) {
 // processSig = bob = x
 // Alice -- Signature -----------> Bob
 func (c *Conversation) processSig(msg []byte) (err error) {
+	previousKey := c.theirKey
+	defer func() {
+		if err != nil {
+			c.theirKey = previousKey
+		}
+	}()
+
 	sigMsg := sig{}
 	err = sigMsg.deserialize(msg)
 	if err != nil {
